@@ -38,6 +38,36 @@ func main() {
 		return
 	}
 	seed, _ := strconv.ParseInt(os.Getenv("VERIF_SEED"), 10, 64)
+	if *prop == "all" {
+		// development aid (benign sweeps): one load, every property's check in turn; exit 1 if any fails
+		p, err := core.Load(*repo, *goarch)
+		if err != nil {
+			fmt.Fprintln(os.Stderr, err)
+			os.Exit(2)
+		}
+		worst := 0
+		for _, id := range rules.IDs() {
+			rep := core.NewReport(id, *tier, seed)
+			code := func() (code int) {
+				defer func() {
+					if r := recover(); r != nil {
+						fmt.Fprintf(os.Stderr, "analyzer panic in %s: %v\n%s\n", id, r, debug.Stack())
+						rep.Unk("infra", "infra|panic", "-", fmt.Sprintf("analyzer panic: %v", r))
+						code = rep.Finish(*verif)
+					}
+				}()
+				rep.Stats["packages"] = len(p.Pkgs)
+				rep.Stats["module_functions"] = len(p.ModuleFuncs(false))
+				rules.Registry[id](p, rep)
+				return rep.Finish(*verif)
+			}()
+			fmt.Printf("SWEEP %s rc=%d\n", id, code)
+			if code > worst {
+				worst = code
+			}
+		}
+		os.Exit(worst)
+	}
 	run, ok := rules.Registry[*prop]
 	if !ok {
 		fmt.Fprintf(os.Stderr, "unknown property %q\n", *prop)
